@@ -7,10 +7,23 @@ Case text (also corpus / replay format): events separated by blanks
     r<k>:<v>,...          (or r-)   announcement carried by a regulator-data message
     e<k>,<k>,...          (or e-)   `frame_errors` dispatched with these kinds (as async_setup does)
     q<k>:<n>                        the public `request(name, kind, retries=n)` for a value that never arrives
+    c<name>:<b>,<name>:<b>...       client callbacks subscribed from here on: name = a sensor name (state, fan, thermostat,
+                                    mixers_connected), `frame_versions`, `sensors` or `regdata`; behaviour b: x raises, p suspends
+                                    (a few loop turns) and returns, h suspends until the NEXT event has been handled, H suspends
+                                    until the end of the history, u unsubscribes itself and returns, o = subscribe_once + raises
+An announcement may carry a suffix ~<letters>: what happens to the frame object BEFORE the device handles it:
+    r repr(frame)   d frame.data   m frame.message   l len(frame)   e frame == <a twin built from the same bytes>   b frame.bytes
+    w the frame arrives as bytes through a real FrameReader (asyncio.StreamReader)   g the same with DEBUG logging of the
+    `pyplumio` loggers switched on while the event is handled (the reader logs "Received frame: %s").
+    h  (a word of its own) from here on `run_in_executor` jobs (the class import inside every `Request.create`) complete one
+       at a time, each only after the loop has gone idle -- as with a real executor thread, the handler of an announcement is
+       then SUSPENDED inside `Request.create` while the other callbacks of the same message run.
+None of this is an event of the model: the statement's oracle does not depend on it.
 """
 import asyncio
 from asyncio import events as aio_events
 import itertools
+import logging
 import random
 import struct
 
@@ -24,6 +37,7 @@ from pyplumio.frames import Request, is_known_frame_type  # noqa: E402
 from pyplumio.frames.messages import RegulatorDataMessage, SensorDataMessage  # noqa: E402
 from pyplumio.structures.modules import MODULES  # noqa: E402
 from pyplumio.structures.network_info import NetworkInfo  # noqa: E402
+from pyplumio.stream import FrameReader  # noqa: E402
 
 NAN = struct.pack("<I", 0x7FC00000)
 KNOWN = [int(m.value) for m in FrameType]
@@ -70,8 +84,13 @@ def parse_case(text):
     for w in text.split():
         kind, body = w[0], w[1:]
         if kind in "sr":
+            body, _, how = body.partition("~")
             entries = [] if body == "-" else [tuple(int(x) for x in e.split(":")) for e in body.split(",")]
-            evs.append((kind, entries))
+            evs.append((kind + how, entries))
+        elif kind == "c":
+            evs.append(("c", [tuple(e.split(":")) for e in body.split(",")]))
+        elif w == "h":
+            evs.append(("h", None))
         elif kind == "e":
             evs.append(("e", [] if body == "-" else [int(x) for x in body.split(",")]))
         elif kind == "q":
@@ -88,13 +107,54 @@ def case_text(evs):
             out.append("e" + (",".join(map(str, body)) or "-"))
         elif kind == "q":
             out.append(f"q{body[0]}:{body[1]}")
+        elif kind == "c":
+            out.append("c" + ",".join(f"{n}:{b}" for n, b in body))
+        elif kind == "h":
+            out.append("h")
         else:
-            out.append(kind + (",".join(f"{k}:{v}" for k, v in body) or "-"))
+            out.append(kind[0] + (",".join(f"{k}:{v}" for k, v in body) or "-") + ("~" + kind[1:] if kind[1:] else ""))
     return " ".join(out)
 
 
+def model_events(evs):
+    """the events the statement speaks about: announcements (without what happened to the frame object before), the
+    unsupported set, failed requests; client subscribers are no events of the model"""
+    return [(k[0], body) for k, body in evs if k[0] not in "ch"]
+
+
 def lean_events(evs):
-    return [(w[0] if w[0] in "eq" else "a") + w[1:] for w in case_text(evs).split()]
+    return [(w[0] if w[0] in "eq" else "a") + w[1:] for w in case_text(model_events(evs)).split()]
+
+
+class DebugLogging:
+    """DEBUG logging of the `pyplumio` loggers, every record formatted (as a real handler would)"""
+
+    class Sink(logging.Handler):
+        def emit(self, record):
+            record.getMessage()
+
+    def __enter__(self):
+        self.lg = logging.getLogger("pyplumio")
+        self.old = (self.lg.level, self.lg.propagate)
+        self.h = self.Sink()
+        self.lg.addHandler(self.h)
+        self.lg.setLevel(logging.DEBUG)
+        self.lg.propagate = False
+        logging.disable(logging.NOTSET)
+
+    def __exit__(self, *a):
+        logging.disable(logging.CRITICAL)
+        self.lg.removeHandler(self.h)
+        self.lg.setLevel(self.old[0])
+        self.lg.propagate = self.old[1]
+
+
+class NoLogging:
+    def __enter__(self):
+        pass
+
+    def __exit__(self, *a):
+        pass
 
 
 class Runner:
@@ -104,6 +164,7 @@ class Runner:
         self.loop = vloop.new_loop()
         self.errors = []
         self.n_req = 0
+        self.client_calls = 0
         self.loop.set_exception_handler(lambda loop, ctx: self.errors.append(ctx))
 
     def close(self):
@@ -116,7 +177,120 @@ class Runner:
             queue = asyncio.Queue()
             dev = EcoMAX(queue, NetworkInfo())
             obs, anomalies = [], []
+            hung_next, hung_end, stats = [], [], dict(called=0)
+            unsupported, recorded, foreign_seen = set(), {}, False
+
+            def client(name, beh):
+                async def cb(value):
+                    stats["called"] += 1
+                    if beh in "xo":
+                        raise RuntimeError("client subscriber fails")
+                    if beh == "p":
+                        for _ in range(3):
+                            await asyncio.sleep(0)
+                    elif beh in "hH":
+                        fut = self.loop.create_future()
+                        (hung_next if beh == "h" else hung_end).append(fut)
+                        await fut
+                    elif beh == "u":
+                        dev.unsubscribe(name, cb)
+
+                return cb
+
             for kind, body in evs:
+                if kind == "h":
+                    self.loop.hold = True
+                    continue
+                if kind == "c":
+                    for name, beh in body:
+                        (dev.subscribe_once if beh == "o" else dev.subscribe)(name, client(name, beh))
+                    continue
+                release = list(hung_next)
+                del hung_next[:]
+                with (DebugLogging() if "g" in kind[1:] else NoLogging()):
+                    self.one_event(dev, queue, kind, body, anomalies)
+                    for fut in release:
+                        if not fut.done():
+                            fut.set_result(None)
+                    self.settle()
+                kinds = []
+                while not queue.empty():
+                    f = queue.get_nowait()
+                    kinds.append(int(f.frame_type))
+                    if not isinstance(f, Request) or int(f.recipient) != int(DeviceType.ECOMAX):
+                        anomalies.append(f"queued {type(f).__name__} to {int(f.recipient)}")
+                if dev.tasks and not any(not f.done() for f in hung_next + hung_end):
+                    anomalies.append(f"{len(dev.tasks)} device tasks still pending after the event")
+                obs.append(kinds)
+                # "... and the new version is recorded": the public readers of the record
+                if kind == "e":
+                    unsupported = set(body)
+                    for k in list(KNOWN) + UNKNOWN[:3]:
+                        if dev.supports_frame_type(k) != (k not in unsupported):
+                            anomalies.append(f"supports_frame_type({k}) is {dev.supports_frame_type(k)} after frame_errors {sorted(unsupported)}")
+                elif kind[0] in "sr" and not any(k in FOREIGN for k, _ in body) and not foreign_seen:
+                    for k, v in dict(body).items():
+                        if k in REQUESTS and k not in unsupported:
+                            recorded[k] = v
+                    for k, v in dict(body).items():
+                        want = recorded.get(k)
+                        if dev.has_frame_version(k, v) != (want == v) or dev.has_frame_version(k) != (want is not None) \
+                                or dev.has_frame_version(k, (v + 1) % 65536) != (want == (v + 1) % 65536):
+                            anomalies.append(f"after announcing {k}:{v} has_frame_version({k}, {v}) = {dev.has_frame_version(k, v)}, "
+                                             f"has_frame_version({k}) = {dev.has_frame_version(k)}; the record should hold {want}")
+                elif kind[0] in "sr":
+                    foreign_seen = True
+            for fut in hung_next + hung_end:
+                if not fut.done():
+                    fut.set_result(None)
+            self.settle()
+            while not queue.empty():
+                anomalies.append(f"frame of kind {int(queue.get_nowait().frame_type)} queued after the last event, when suspended client subscribers resumed")
+            self.client_calls += stats["called"]
+            return obs, anomalies
+        finally:
+            self.loop.hold = False
+            while self.loop.held:
+                self.loop.release(0)
+            aio_events._set_running_loop(None)
+
+    def settle(self):
+        """run to quiescence, executor jobs included (a held job completes once the loop has gone idle)"""
+        self.loop.settle()
+        while self.loop.held:
+            self.loop.release(0)
+            self.loop.settle()
+
+    def arrive(self, cls, payload, how, anomalies):
+        """the frame object the device is going to handle, after whatever the route / the client did with it before"""
+        frame = cls(message=bytearray(payload), sender=DeviceType.ECOMAX, recipient=DeviceType.ECONET)
+        if "w" in how or "g" in how:
+            sr = asyncio.StreamReader()
+            sr.feed_data(bytes(frame.bytes))
+            t = self.loop.create_task(FrameReader(sr).read())
+            self.settle()
+            frame = t.result() if t.done() else None
+            if not isinstance(frame, cls):
+                anomalies.append(f"the frame reader delivered {type(frame).__name__}")
+                return None
+        for ch in how:
+            if ch == "r":
+                repr(frame)
+            elif ch == "d":
+                frame.data
+            elif ch == "m":
+                frame.message
+            elif ch == "l":
+                len(frame)
+            elif ch == "b":
+                frame.bytes
+            elif ch == "e":
+                frame == cls(message=bytearray(payload), sender=DeviceType.ECOMAX, recipient=DeviceType.ECONET)
+        return frame
+
+    def one_event(self, dev, queue, kind, body, anomalies):
+        if True:
+            if True:
                 if kind == "e":
                     dev.dispatch_nowait("frame_errors", [FrameType(k) if is_known_frame_type(k) else k for k in body])
                 elif kind == "q":
@@ -132,27 +306,18 @@ class Runner:
                             anomalies.append(f"request() raised {type(e).__name__}")
 
                     self.loop.create_task(req())
+                    self.settle()
                     self.loop.settle(until=self.loop.time() + 0.5 * body[1] + 0.25)
                 else:
-                    payload = sensor_payload(body) if kind == "s" else regdata_payload(body)
-                    cls = SensorDataMessage if kind == "s" else RegulatorDataMessage
+                    payload = sensor_payload(body) if kind[0] == "s" else regdata_payload(body)
+                    cls = SensorDataMessage if kind[0] == "s" else RegulatorDataMessage
                     try:
-                        dev.handle_frame(cls(message=bytearray(payload), sender=DeviceType.ECOMAX, recipient=DeviceType.ECONET))
+                        frame = self.arrive(cls, payload, kind[1:], anomalies)
+                        if frame is not None:
+                            dev.handle_frame(frame)
                     except Exception as e:  # noqa: BLE001
                         anomalies.append(f"handle_frame raised {type(e).__name__}")
-                self.loop.settle()
-                kinds = []
-                while not queue.empty():
-                    f = queue.get_nowait()
-                    kinds.append(int(f.frame_type))
-                    if not isinstance(f, Request) or int(f.recipient) != int(DeviceType.ECOMAX):
-                        anomalies.append(f"queued {type(f).__name__} to {int(f.recipient)}")
-                if dev.tasks:
-                    anomalies.append(f"{len(dev.tasks)} device tasks still pending after the event")
-                obs.append(kinds)
-            return obs, anomalies
-        finally:
-            aio_events._set_running_loop(None)
+                self.settle()
 
 
 # ---------------------------------------------------------------- generators
@@ -203,7 +368,65 @@ def gen_case(rng, unsupported=None, foreign_p=0.0):
     return evs
 
 
+CLIENT_NAMES = ["state", "fan", "thermostat", "mixers_connected", "frame_versions", "frame_versions", "sensors", "regdata"]
+
+
+def gen_clients(rng):
+    return ("c", [(rng.choice(CLIENT_NAMES), rng.choice("xxxpphHuo")) for _ in range(rng.choice([1, 1, 2, 3]))])
+
+
+def gen_how(rng):
+    r = rng.random()
+    how = "".join(rng.sample("rdmleb", rng.choice([1, 1, 2, 3]))) if r < 0.6 else ""
+    r = rng.random()
+    return ("g" if r < 0.3 else "w" if r < 0.5 else "") + how
+
+
+def decorate(rng, evs):
+    """what surrounds the announcements without being an event of the statement: the route the frame object took and what
+    was done to it before the device handles it; client subscribers that fail, suspend or unsubscribe themselves"""
+    out = []
+    r = rng.random()
+    p_how = 0.0 if r < 0.35 else 0.5 if r < 0.8 else 1.0
+    r = rng.random()
+    n_cl = 0 if r < 0.45 else 1 if r < 0.85 else 2
+    at = sorted(rng.randrange(len(evs) + 0) if rng.random() < 0.4 else 0 for _ in range(n_cl)) if evs else []
+    if rng.random() < 0.5:
+        out.append(("h", None))
+    for i, (k, body) in enumerate(evs):
+        while at and at[0] == i:
+            out.append(gen_clients(rng))
+            at.pop(0)
+        if k in ("s", "r") and rng.random() < p_how:
+            k = k + gen_how(rng)
+        out.append((k, body))
+    return out
+
+
 def gen_cases(rng, tier):
+    for evs, label in gen_cases_plain(rng, tier):
+        if label != "each-code" or rng.random() < 0.5:
+            evs = decorate(rng, evs)
+        yield evs, label
+    quick = tier == "quick"
+    # several outdated kinds per announcement, both carriers, every client behaviour on every name, every pre-handling
+    for _ in range(400 if quick else 8000):
+        kinds = rng.sample(REQUESTS, rng.randint(2, 8))
+        evs = [("h", None)] if rng.random() < 0.7 else []
+        if rng.random() < 0.4:
+            evs.append(("e", rng.sample(SETUP, rng.choice([0, 0, 1]))))
+        evs.append(gen_clients(rng))
+        v = rng.randrange(1, 4)
+        for step_ in range(rng.randint(2, 5)):
+            r = rng.random()
+            v = v if r < 0.3 else v + 1 if r < 0.7 else max(0, v - 1)
+            evs.append((rng.choice("sr") + gen_how(rng), [(k, v) for k in kinds]))
+            if rng.random() < 0.2:
+                evs.append(gen_clients(rng))
+        yield evs, "clients"
+
+
+def gen_cases_plain(rng, tier):
     quick = tier == "quick"
     # every set of unsupported set-up kinds (the kinds async_setup can report), exhaustively
     reps = 1 if quick else 20
@@ -270,11 +493,26 @@ def check_cases(res, cases):
         model = [] if ans == "." else [a.split("/") for a in ans.split(";")]
         model_q = [[] if q == "-" else [int(x) for x in q.split(",")] for q, _ in model]
         raised = any(r == "1" for _, r in model)
+        full_evs, evs = evs, model_events(evs)
         n_ann = sum(1 for k, _ in evs if k in "sr")
         nontrivial = n_ann >= 2 and any(obs) and any(not o for (k, _), o in zip(evs, obs) if k in "sr")
         res.case(text, nontrivial)
         res.count("label:" + label)
         res.count("announcements:%s" % ("1" if n_ann <= 1 else "2-4" if n_ann <= 4 else "5-11"))
+        res.count("executor jobs (Request.create): " + ("complete when the loop is idle" if any(k == "h" for k, _ in full_evs) else "complete at once"))
+        for k, body in full_evs:
+            if k == "h":
+                continue
+            if k == "c":
+                for name, beh in body:
+                    res.count("client subscriber on " + ("a sensor name" if name not in ("frame_versions", "sensors", "regdata") else name) + ": "
+                              + dict(x="raises", p="suspends briefly", h="suspends over the next event", H="suspends to the end",
+                                     u="unsubscribes itself", o="once, raises")[beh])
+            elif k[0] in "sr":
+                res.count("frame before handling: " + ("untouched" if not k[1:] else "via FrameReader + DEBUG logging" if "g" in k else
+                                                       "via FrameReader" if "w" in k else "inspected (repr/data/message/len/==/bytes)"))
+                if ("g" in k or "w" in k) and set(k[1:]) - set("gw"):
+                    res.count("frame before handling: via FrameReader, then inspected")
         for (k, body), o in zip(evs, obs):
             if k == "e":
                 res.count("unsupported-set-size:%d" % len(body))
@@ -468,7 +706,11 @@ def run(ctx):
     res.rule = ("histories of 1..11 announcements (0..8 entries each; versions repeated / +1 / -1 / fresh incl. 0 and 65535; a code twice "
                 "in one announcement) carried by sensor-data or regulator-data frames into a fresh EcoMAX; `frame_errors` dispatched first, "
                 "late, twice or never; every subset of the 8 set-up kinds as the unsupported set (exhaustive); every code 0..255 on its own; "
-                "a separate class with known response/message codes; the two carriers alternating with byte-identical repeated frames. distinct = distinct history text; non-trivial = >= 2 announcements, "
+                "a separate class with known response/message codes; the two carriers alternating with byte-identical repeated frames; "
+                "around the announcements (no events of the statement): the frame object inspected before the device handles it (repr / data / message / "
+                "len / == / bytes), arriving as bytes through a real FrameReader, with DEBUG logging of the pyplumio loggers; client subscribers on sensor "
+                "names / frame_versions / sensors / regdata that raise, suspend (briefly, over the next event, to the end), unsubscribe themselves or are "
+                "once-subscribers that raise; executor jobs (the class import of every Request.create) completing at once or only when the loop is idle. distinct = distinct history text; non-trivial = >= 2 announcements, "
                 "at least one that queued a request and one that queued nothing")
     cases = [(parse_case(ln), "corpus") for _, ln in load_corpus("C15")]
     cases.extend(gen_cases(rng, ctx["tier"]))
